@@ -17,10 +17,60 @@ UNITS = C19.UNITS
 REGIONS = ["fns_edit_script_", "vars_edit_script_", "unrefed_fn_syms_edit_script_", "unrefed_var_syms_edit_script_"]
 
 
+def _bookkeeping(f, cond):
+    """a test of the region's own added_* / deleted_* maps: the cancellation of an id that the edit script lists both as
+    deleted and as inserted is written in the second pass only, but cancels in both directions"""
+    import re
+    return any(x["k"] == "MemberExpr" and re.match(r"(added|deleted)_", (f.decl(x) or {}).get("n") or "") for x in walk(cond))
+
+
+def guards_of(f, node):
+    """conditions the execution of `node` depends on inside its innermost loop: enclosing if-conditions (with polarity)
+    and the conditions of earlier `continue` / `break` statements of the loop body"""
+    out = []
+    loop = None
+    prev = node
+    chain = []
+    for a in f.ancestors(node):
+        if a["k"] in ("ForStmt", "CXXForRangeStmt", "WhileStmt", "DoStmt"):
+            loop = a
+            break
+        chain.append((a, prev))
+        prev = a
+    for a, child in chain:
+        if a["k"] == "IfStmt" and a["c"][0] is not None:
+            if any(y is node for y in walk(a["c"][0])):
+                continue                                    # the call is (part of) the condition itself
+            if _bookkeeping(f, a["c"][0]):
+                continue
+            then, els = a["c"][1], a["c"][2] if len(a["c"]) > 2 else None
+            in_then = then is not None and any(y is node for y in walk(then))
+            out.append(("" if in_then else "!") + "(" + expr_str(f, a["c"][0]).replace(" ", "") + ")")
+    if loop is not None:
+        body = loop["c"][-1]
+        w0 = f.loc(node)
+        for x in walk(body):
+            if x["k"] in ("ContinueStmt", "BreakStmt"):
+                # an early exit that precedes the node in the body
+                if any(y is node for a in f.ancestors(x) for y in ([a] if False else [])):
+                    continue
+                conds = [a for a in f.ancestors(x) if a["k"] == "IfStmt" and any(z is a for z in walk(body))]
+                if not conds:
+                    continue
+                inner = conds[0]
+                if any(y is node for y in walk(inner)):
+                    continue                                # the exit is inside the statement that holds the node
+                if _bookkeeping(f, inner["c"][0]):
+                    continue
+                if (inner.get("l"), inner.get("i")) < (node.get("l"), node.get("i")):
+                    out.append("!(" + expr_str(f, inner["c"][0]).replace(" ", "") + ")")
+    return out
+
+
 def run(ctx):
     ctx.clause = ("in every region of ensure_lookup_tables_populated the deletion half (lookups in the second corpus) and "
                   "the addition half (lookups in the first corpus) perform mirrored symbol-lookup / version events")
-    ctx.rules = ["R-MIRROR"]
+    ctx.rules = ["R-MIRROR", "R-MIRROR/GUARD"]
     P = ctx.program(UNITS)
     f = P.fn1("abigail::comparison::corpus_diff::priv::ensure_lookup_tables_populated")
     ctx.analysed(f)
@@ -38,6 +88,7 @@ def run(ctx):
             if x["k"] not in ("CompoundStmt", "DeclStmt", "VarDecl"):
                 break
     n_ev = 0
+    n_guard = [0]
     for r in REGIONS:
         if r not in regions:
             raise AnalysisBroken("anchor vanished: region of %s in ensure_lookup_tables_populated" % r)
@@ -61,6 +112,22 @@ def run(ctx):
         common = list((cd & ca).elements())
         ctx.ob("R-MIRROR", "%s: both halves perform the symbol lookup in the other corpus" % name, bool(common),
                f.loc(regions[r]), "mirrored events: %s" % (" ; ".join(common) or "none"))
+        # R-MIRROR/GUARD: a mirrored lookup must run under the same conditions in both halves
+        for evname in sorted(set(common)):
+            gd = [guards_of(f, n) for n, e in halves["second_"] if e.replace("second_->", "OTHER->") == evname]
+            ga = [guards_of(f, n) for n, e in halves["first_"] if e.replace("first_->", "OTHER->") == evname]
+            if not gd or not ga:
+                continue
+            n_guard[0] += 1
+            import re
+            d0 = [re.sub(r"\bfirst_\b", "SELF", re.sub(r"\bsecond_\b", "OTHER", g)) for g in gd[0]]
+            a0 = [re.sub(r"\bsecond_\b", "SELF", re.sub(r"\bfirst_\b", "OTHER", g)) for g in ga[0]]
+            ok = sorted(C19.norm(x) for x in d0) == sorted(C19.norm(x) for x in a0)
+            wn = [n for n, e in halves["second_"] if e.replace("second_->", "OTHER->") == evname][0]
+            ctx.ob("R-MIRROR/GUARD", "%s: `%s` runs under the same conditions in both halves" % (name, evname), ok, f.loc(wn),
+                   "conditions: %s" % (d0 or "none") if ok else
+                   "the deletion half performs it under %s, the addition half under %s: an interface can be reported removed in "
+                   "one direction without being reported added in the other" % (d0 or "no condition", a0 or "no condition"))
         for side, extra, nodes in (("addition", ca - cd, halves["first_"]), ("deletion", cd - ca, halves["second_"])):
             other = "deletion" if side == "addition" else "addition"
             if not extra:
@@ -76,6 +143,7 @@ def run(ctx):
                    "deletion half: [%s]; addition half: [%s]: a treatment applied to one direction only makes "
                    "removed(A,B) differ from added(B,A)" % (" ; ".join(dele), " ; ".join(add)))
     ctx.floor("R-MIRROR", "regions", len(REGIONS), 4)
+    ctx.floor("R-MIRROR/GUARD", "mirrored lookups whose guards were compared", n_guard[0], 4)
     ctx.floor("R-MIRROR", "symbol-lookup events in the two halves", n_ev, 16)
     ctx.assume("the edit scripts themselves (diff_utils) and the matching of changed interfaces are runtime; "
                "find_symbol_by_version's own one-sided fallback (default version for unversioned requests only) is "
